@@ -76,7 +76,8 @@ AllOk(cs) == \A x \in 1..Len(cs) : cs[x].ok \/ (PrintT(<<"FAILED", cs[x].p, cs[x
 PropDedent == pc = "done" => AllOk(Judge_dedent(EvD))
 PropIndent == pc = "done" => AllOk(Judge_indent(EvI))
 PropRel == pc = "done" => AllOk(Judge_c18(EvR))
-Terminates == <>(pc = "done" \/ pc = "type")
+\* once a call has begun it returns (checked under weak fairness of the step actions: the algorithms terminate)
+Terminates == (pc # "type") ~> (pc = "done")
 Emit == pc = "done" => /\ PrintT(<<"REPLAY", ToJson([k |-> "c18", s |-> s, p |-> p])>>)
                        /\ PrintT(<<"REPLAY", ToJson([k |-> "indent", s |-> s, p |-> p])>>)
                        /\ PrintT(<<"REPLAY", ToJson([k |-> "dedent", s |-> s])>>)
